@@ -359,6 +359,194 @@ def rule_r8(ctx):
             ctx.fail(r, f, "header size subtracted without the size test", subs[0].line, "n can wrap below zero")
 
 
+def rule_r10(ctx):
+    r = ctx.rule("C11.R10", "T1", "udp: the length a DATA header announces becomes the message length only after it was compared "
+                 "with the number of payload bytes that actually arrived (the handler's length parameter, see R8) -- a peer "
+                 "cannot claim bytes it never sent", floor=1)
+    prog = ctx.prog
+    f = prog.fn("udp_rx_cb", "transport/udp/udp.c")
+    if f is None:
+        raise AnalysisBroken("udp transport not in the build")
+    n = 0
+    for c in G.need_sites(list(f.calls("udp_recv_data")), "udp_recv_data", f):
+        h = prog.resolve(f, "udp_recv_data")
+        if h is None or h.cfg_failed:
+            raise AnalysisBroken("udp_recv_data has no CFG")
+        idx = None
+        for i, a in enumerate(c.node["args"]):
+            a = f.expand(a)
+            if a is not None and a.get("k") == "var" and any(x is not None and x.get("k") == "call" and x.get("fn") in
+                                                              ("nng_aio_count", "nni_aio_count") for _, x in G.var_defs(f, a["n"])):
+                idx = i
+        if idx is None or idx >= len(h.params):
+            continue          # reported by R8
+        pname = h.params[idx]["n"]
+
+        def is_wire(m):
+            return m is not None and any(x.get("k") == "mem" and x.get("f") == "us_params" for x in walk(m)) and m.get("k") in ("idx", "mem", "cast")
+
+        def is_len(m):
+            return m is not None and m.get("k") == "var" and m["n"] == pname
+        ok_edges = G.rel_edges(h, is_wire, is_len, "<=")
+        uses = []
+        for t in h.sites():
+            nd = t.node
+            if nd.get("k") == "asg" and is_wire(h.expand(nd["rhs"])):
+                uses.append(t)
+            elif nd.get("k") == "call" and any(is_wire(h.expand(a)) for a in nd["args"] if a is not None):
+                uses.append(t)
+            elif nd.get("k") == "decls" and any(d.get("init") is not None and is_wire(h.expand(d["init"])) for d in nd["d"]):
+                uses.append(t)
+        if not uses:
+            raise AnalysisBroken("udp_recv_data no longer reads the announced length")
+        for t in uses:
+            n += 1
+            if ok_edges and G.dominated(h, (t.b, t.i), ok_edges):
+                r.ob(h, "announced length used at line %s only after it was compared with %s" % (t.line, pname))
+            else:
+                ctx.fail(r, h, "announced length used without comparing it with %s" % pname, t.line,
+                         "the DATA header's length is used at line %s on a path that never established that it does not exceed "
+                         "%s, the number of payload bytes received: a peer can claim more bytes than it sent, and what is "
+                         "delivered is padded with stale receive-buffer contents of other peers" % (t.line, pname))
+    if n < 1:
+        raise AnalysisBroken("no use of the announced DATA length found")
+
+
+CONSUME = ("nni_msg_free", "nng_msg_free", "nni_lmq_put", "nni_aio_finish_msg", "nni_pipe_send", "nni_msgq_aio_put")
+
+
+def _rearms(prog, f, depth=0):
+    """f calls nni_pipe_recv on every path to its exit (a wrapper such as bus0_pipe_recv)."""
+    sites = {(c.b, c.i) for c in f.calls("nni_pipe_recv")}
+    if depth < 2:
+        for c in f.calls():
+            h = prog.resolve(f, c.node["fn"]) if c.node.get("fn") else None
+            if h is not None and h is not f and h.file == f.file and h.static and not h.cfg_failed and _rearms(prog, h, depth + 1):
+                sites.add((c.b, c.i))
+    return bool(sites) and f.dominated_by((f.exit, 0), blocked=lambda b, i, e: (b, i) in sites)
+
+
+def _fld(g, e, pos):
+    e = g.expand(e) if e is not None else None
+    lf = last_field(e) if e is not None else None
+    if lf is None and e is not None:
+        lf = last_field(G.resolve(g, e, pos))
+    return lf
+
+
+def rule_r9(ctx):
+    r = ctx.rule("C11.R9", "T2", "the receive loop of a connection survives a dropped message: in every protocol pipe receive "
+                 "callback, each path on which the message is taken off the receive aio (freed, queued, handed on, or the aio's "
+                 "message cleared) goes on to re-arm the receive (nni_pipe_recv, directly or through a wrapper), to close the "
+                 "pipe, or to start the pipe's forwarding aio whose callback re-arms -- otherwise one bad message silently "
+                 "wedges the connection", floor=40)
+    prog = ctx.prog
+    cbs = {}
+    for (f, aio, cb, arg, site) in prog.aio_callbacks():
+        lf = last_field(f.expand(aio)) if aio is not None else None
+        if "/protocol/" in f.file and lf:
+            cbs.setdefault(f.file, {})[lf] = cb
+    n = 0
+    for file, amap in sorted(cbs.items()):
+        for lf, cb in sorted(amap.items()):
+            g = prog.fn(cb, file)
+            if g is None or g.cfg_failed:
+                continue
+            # a receive callback: it reads the message of its own aio and that aio is what nni_pipe_recv is armed with
+            armed = any(c.node.get("fn") == "nni_pipe_recv" and len(c.node["args"]) > 1 and last_field(h.expand(c.node["args"][1])) == lf
+                        for h in prog.functions if h.file == file for c in h.calls("nni_pipe_recv"))
+            if not armed:
+                continue
+            n += 1
+            fld = lf.split(".", 1)[1]
+            # forwarding aios of the same pipe whose callback re-arms
+            fwd = set()
+            for lf2, cb2 in amap.items():
+                g2 = prog.fn(cb2, file)
+                if lf2 != lf and g2 is not None and not g2.cfg_failed and lf2.split(".")[0] == lf.split(".")[0] and (
+                        any(True for _ in g2.calls("nni_pipe_recv")) or any(
+                            (lambda h: h is not None and h.file == file and _rearms(prog, h))(prog.resolve(g2, c.node["fn"]) if c.node.get("fn") else None)
+                            for c in g2.calls())):
+                    fwd.add(lf2)
+            cont = set()
+            consume = []
+            msgvars = set()
+            for t in g.sites():
+                nd = t.node
+                if nd.get("k") == "decls":
+                    for d in nd["d"]:
+                        e = g.expand(d["init"]) if d.get("init") is not None else None
+                        if e is not None and e.get("k") == "call" and e.get("fn") == "nni_aio_get_msg" and e["args"] and _fld(g, e["args"][0], (t.b, t.i)) == lf:
+                            msgvars.add(d["n"])
+                elif nd.get("k") == "asg" and nd["lhs"].get("k") == "var":
+                    e = g.expand(nd["rhs"])
+                    if e is not None and e.get("k") == "call" and e.get("fn") == "nni_aio_get_msg" and e["args"] and _fld(g, e["args"][0], (t.b, t.i)) == lf:
+                        msgvars.add(nd["lhs"]["n"])
+            for c in g.calls():
+                fnm = c.node.get("fn")
+                args = [g.expand(a) if a is not None else None for a in c.node["args"]]
+                if fnm in ("nni_pipe_recv", "nni_pipe_close"):
+                    cont.add((c.b, c.i))
+                    continue
+                h = prog.resolve(g, fnm) if fnm else None
+                if h is not None and h.file == file and h.static and not h.cfg_failed and h is not g and _rearms(prog, h):
+                    cont.add((c.b, c.i))
+                    continue
+                if any(a is not None and _fld(g, a, (c.b, c.i)) in fwd for a in args) and fnm not in ("nni_aio_set_msg", "nni_aio_get_msg", "nni_aio_result"):
+                    cont.add((c.b, c.i))        # nni_msgq_aio_put(urq, &p->aio_putq), nni_pipe_send(..., &p->aio_send) style hand-off
+                    continue
+                if fnm == "nni_aio_set_msg" and len(args) > 1 and _fld(g, args[0], (c.b, c.i)) == lf and is_null(args[1]):
+                    consume.append((c, "message cleared on %s" % fld))
+                elif fnm in CONSUME and any(a is not None and a.get("k") == "call" and a.get("fn") == "nni_aio_get_msg" and a["args"] and
+                                            _fld(g, a["args"][0], (c.b, c.i)) == lf for a in args):
+                    consume.append((c, "%s(nni_aio_get_msg(%s))" % (fnm, fld)))
+                elif fnm in CONSUME and any(a is not None and a.get("k") == "var" and a["n"] in msgvars for a in args):
+                    consume.append((c, "%s(%s)" % (fnm, ",".join(a["n"] for a in args if a is not None and a.get("k") == "var" and a["n"] in msgvars))))
+            rec = lf.split(".")[0]
+            # parked: the message is stored in a field of the pipe from which another function of the file takes it and re-arms
+            for t in g.assigns():
+                l = t.node["lhs"]
+                e = g.expand(t.node["rhs"])
+                if l.get("k") == "mem" and e is not None and e.get("k") == "var" and e["n"] in msgvars:
+                    pf = last_field(l)
+                    if pf and pf.split(".")[0] == rec and any(
+                            h is not g and h.file == file and not h.cfg_failed and any(True for _ in h.calls("nni_pipe_recv")) and any(
+                                x.node.get("k") == "mem" and last_field(x.node) == pf for x in h.sites())
+                            for h in prog.functions):
+                        cont.add((t.b, t.i))
+            # a pipe that its close slot has already marked closed is not re-armed
+            closed_edges = {}
+            slotfns = {h.name for sl in ("nni_proto_pipe_ops.pipe_close", "nni_proto_pipe_ops.pipe_stop") for h in prog.slot_fns(sl)}
+            for bid, k, atom, val in G.edge_facts(g):
+                if val and atom.get("k") == "mem" and (last_field(atom) or "").split(".")[0] == rec:
+                    cf = last_field(atom)
+                    setters = [h.name for h in prog.functions if h.file == file and not h.cfg_failed for t in h.assigns()
+                               if t.node["lhs"].get("k") == "mem" and last_field(t.node["lhs"]) == cf and const_of(h.expand(t.node["rhs"])) not in (None, 0)]
+                    if setters and all(x in slotfns for x in setters):
+                        closed_edges[bid] = k
+            if not consume:
+                raise AnalysisBroken("%s: no site takes the message off %s" % (g.name, lf))
+            for c, what in consume:
+                if any(G.dominated(g, (c.b, c.i), {b_: k_}) for b_, k_ in closed_edges.items()):
+                    r.ob(g, "%s line %s: the pipe was already marked closed by its close slot" % (what, c.line))
+                    continue
+                after = g.reach((c.b, c.i + 1), blocked=lambda b, i, e: (b, i) in cont,
+                                edge_ok=lambda b, k: not (b in closed_edges and closed_edges[b] == k))
+                # ... or a continuation already happened before this site on every path (re-arm first, then queue)
+                before = g.dominated_by((c.b, c.i), blocked=lambda b, i, e: (b, i) in cont)
+                if (g.exit, 0) in after and not before:
+                    path = g.find_path((c.b, c.i + 1), lambda b, i: (b, i) == (g.exit, 0), blocked=lambda b, i, e: (b, i) in cont,
+                                       edge_ok=lambda b, k: not (b in closed_edges and closed_edges[b] == k))
+                    ctx.fail(r, g, "%s then no re-arm" % what.split("(")[0], c.line,
+                             "%s takes the received message off %s at line %s (%s) and can return without nni_pipe_recv, "
+                             "nni_pipe_close or starting a forwarding aio: no further message is ever received on this "
+                             "connection, with no error reported" % (g.name, fld, c.line, what), g.path_lines(path))
+                else:
+                    r.ob(g, "%s line %s: receive continues on every path" % (what, c.line))
+    if n < 14:
+        raise AnalysisBroken("only %d protocol receive callbacks recognised" % n)
+
+
 def run(ctx):
     ctx.guard(rule_r1)
     ctx.guard(rule_r2)
@@ -368,3 +556,5 @@ def run(ctx):
     ctx.guard(rule_ws)
     ctx.guard(rule_r6)
     ctx.guard(rule_r8)
+    ctx.guard(rule_r9)
+    ctx.guard(rule_r10)
